@@ -12,7 +12,8 @@ no_panic_counterexample_prefix_duration suffix_iterators
 no_panic_token no_panic_tokens suffix_accessors suffix_decodeT suffix_token pos_of_suffix pos_in_bounds pos_monotone
 pos_token pos_skip pos_stuck_past_end_accessors pos_stuck_past_end_decodeT pos_stuck_past_end_token pos_stuck_past_end
 alloc_linear_decodeT alloc_linear_stringIter alloc_linear_bytes alloc_linear_tokens work_indep_of_declared_count
-repeatN_ok_count arrayvec_drops_once arrayvec_each_once""".split()]   # see lean/Minicbor/Thm/C02.lean
+repeatN_ok_count work_linear_accessors work_linear_decodeT work_linear_skip work_linear_tokens
+arrayvec_drops_once arrayvec_each_once""".split()]   # see lean/Minicbor/Thm/C02.lean
 PACKAGES = ["hcore"]
 ACCS = ["bool", "u8", "u16", "u32", "u64", "i8", "i16", "i32", "i64", "int", "f16", "f32", "f64", "char", "bytes", "str",
         "bytes_iter", "str_iter", "array", "map", "tag", "null", "undefined", "simple", "datatype", "skip"]
